@@ -202,10 +202,16 @@ def _coordinator(ctx):
     ctx.check(a[5].has_call("get_cluster_config_or_default") or a[5].has_call("get_cluster_config"), "C02.D1", "coordinator:config", site(b, bb), ok="config from the proxy", bad="config is not the proxy's")
     for ib, it in calls_to(b, "HashMap::insert"):
         k = du.slice_operand(it["args"][1]); v = du.slice_operand(it["args"][2]); recv = du.slice_operand(it["args"][0], deep=False)
-        rn = {b.local_name(l) for l in recv.locals}
-        if "peer_node_map" in rn:
+        # which map is it: the one that flows into the peer argument (4) or into the local-node argument (3) of ProxyClusterMeta::new
+        named = {l for l in recv.locals if b.local_name(l)}
+        rn = set()
+        if named & {l for l in a[4].locals}:
+            rn.add("peer_node_map")
+        if named & {l for l in a[3].locals}:
+            rn.add("node_map")
+        if "peer_node_map" in rn and "node_map" not in rn:
             ctx.check(k.has_field("PeerProxy", "proxy_address") and v.has_field("PeerProxy", "slots"), "C02.D1", "coordinator:peer-map-entry", site(b, ib), ok="peer map: proxy_address -> slots", bad="peer map entry is not proxy_address -> slots")
-        elif "node_map" in rn:
+        elif "node_map" in rn and "peer_node_map" not in rn:
             ctx.check(k.has_call("Node::get_address") and v.has_call("Node::into_slots"), "C02.D1", "coordinator:local-map-entry", site(b, ib), ok="local map: node address -> slots", bad="local map entry is not node address -> slots")
     sk = loop_can_skip(b, [ib for ib, _ in calls_to(b, "HashMap::insert")])
     ctx.check(not sk, "C02.D1", "coordinator:no-entry-skipped", site(b), ok="every node / peer is inserted", bad="a node or peer can be skipped when building the maps (loop head bb%s)" % [h for h, _ in sk])
